@@ -1,1 +1,217 @@
-/-! Property theorems for C16 (stub: none yet). -/
+/-
+Property C16 - the exported-object tree seen remotely is exactly what was exported.
+
+Code model: `Txdbus.Obj.Tree` (objects.py `DBusObjectHandler.exports/exportObject/unexportObject/
+getManagedObjects/handleMethodCallMessage`, introspection.py `generateIntrospectionXML`, after the
+repairs fixes/C16-01 and fixes/C16-02).  Spec: `Txdbus.Obj.TreeSpec` (paths as element lists).
+All theorems quantify over ALL histories of export/unexport calls and all valid paths, the root
+included; nothing is bounded.  The theorems named `orig_…` are `decide`-checked witnesses that the
+code as it was before the two repairs violates the property (they are the replays of F23 / F24).
+-/
+import TxdbusModel.Obj.Tree
+import TxdbusModel.Proofs.Obj.TreePath
+import TxdbusModel.Proofs.Obj.Tree
+
+namespace Txdbus.C16
+open Txdbus.Obj Txdbus.Obj.Tree Txdbus.Obj.TreeSpec Txdbus.Obj.TreeLemmas Txdbus.Obj.TreePath
+
+/-! ### the table -/
+
+/-- After any history the table answers `exports.get(s)` with exactly the object the calls so
+far imply for `s` (any text `s`, valid path or not). -/
+theorem exports_eq_spec (h : List Op) (s : Str) : lookup (run h) s = exportedAfter h s :=
+  lookup_run h s
+
+/-! ### 1. introspection -/
+
+/-- Introspecting any valid path (root included) after any history lists exactly the names of
+its immediate children among the exported paths, each once. -/
+theorem children_eq_spec (h : List Op) (wf : WfHistory h) (p : Path) (hp : ValidPath p) :
+    (introspectChildren (render p) (run h)).Nodup ∧
+      ∀ name, name ∈ introspectChildren (render p) (run h) ↔ name ∈ children p (exportedPaths h) := by
+  refine ⟨nodup_childLoop _ _ _ (by simp), fun name => ?_⟩
+  simp only [introspectChildren, mem_childLoop, List.not_mem_nil, false_or, mem_children]
+  constructor
+  · rintro ⟨k, hk, hsw, hc, hne⟩
+    obtain ⟨q, hq, rfl, hqE⟩ := key_valid h wf k hk
+    rcases (startsWith_dirPrefix p q hp hq).mp hsw with ⟨rfl, rfl⟩ | ⟨e, rest, rfl⟩
+    · exfalso; apply hne; rw [← hc]; decide
+    · rw [dirPrefix_render p hp, render_below,
+        childOf_below p e rest (ValidPath.slashFree hq e (by simp))] at hc
+      subst hc
+      exact ⟨rest, hqE⟩
+  · rintro ⟨rest, hqE⟩
+    have hq := ((mem_exportedPaths h _).mp hqE).1
+    refine ⟨_, mem_keys_of_exported h _ hqE, (startsWith_dirPrefix p _ hp hq).mpr (Or.inr ⟨name, rest, rfl⟩), ?_, ?_⟩
+    · rw [dirPrefix_render p hp, render_below]
+      exact childOf_below p name rest (ValidPath.slashFree hq name (by simp))
+    · exact ne_nil_of_validElem (hq name (by simp))
+
+theorem children_nil_iff (h : List Op) (wf : WfHistory h) (p : Path) (hp : ValidPath p) :
+    introspectChildren (render p) (run h) = [] ↔ below p (exportedPaths h) = [] := by
+  have hc := (children_eq_spec h wf p hp).2
+  simp only [List.eq_nil_iff_forall_not_mem]
+  constructor
+  · intro hnone q hq
+    obtain ⟨hqE, e, rest, rfl⟩ := (mem_below p q _).mp hq
+    exact hnone e ((hc e).mpr ((mem_children p _ e).mpr ⟨rest, hqE⟩))
+  · intro hnone name hn
+    obtain ⟨rest, hqE⟩ := (mem_children p _ name).mp ((hc name).mp hn)
+    exact hnone _ ((mem_below p _ _).mpr ⟨hqE, name, rest, rfl⟩)
+
+/-- Introspect fails (the call is answered UnknownObject) exactly for a path with neither object
+nor exported descendants; otherwise the reply carries the interfaces of the object there (if
+any) and the child list of `children_eq_spec`. -/
+theorem introspect_fails_iff_nothing_there (h : List Op) (wf : WfHistory h) (p : Path) (hp : ValidPath p) :
+    (handle (run h) (render p) .introspect = .unknownObject (render p) ↔
+        exportedAfter h (render p) = none ∧ below p (exportedPaths h) = []) ∧
+    (¬ (exportedAfter h (render p) = none ∧ below p (exportedPaths h) = []) →
+        handle (run h) (render p) .introspect =
+          .introspection ((exportedAfter h (render p)).map (·.ifaces)) (introspectChildren (render p) (run h))) := by
+  rw [handle_introspect, lookup_run]
+  simp only [children_nil_iff h wf p hp]
+  constructor
+  · constructor
+    · intro hh
+      split at hh
+      · assumption
+      · cases hh
+    · intro hh; rw [if_pos hh]
+  · intro hh; rw [if_neg hh]
+
+/-! ### 2. GetManagedObjects -/
+
+/-- The interface names reported for an object (dict keys) are exactly its interfaces, each once. -/
+theorem interface_names_complete (l : List Str) : (dictKeys l).Nodup ∧ ∀ i, i ∈ dictKeys l ↔ i ∈ l :=
+  ⟨nodup_dictKeys l, mem_dictKeys l⟩
+
+/-- GetManagedObjects on an exported valid path (root included) reports exactly the exported
+objects strictly beneath it - one entry per path, each with all its interface names
+(`interface_names_complete`) and its readable properties (the payload of the object visible
+there). -/
+theorem managed_eq_spec (h : List Op) (wf : WfHistory h) (p : Path) (hp : ValidPath p)
+    (o0 : Obj) (hexp : exportedAfter h (render p) = some o0) :
+    ∃ ents, handle (run h) (render p) .getManagedObjects = .managed ents ∧
+      (ents.map (fun x => x.1)).Nodup ∧
+      ∀ k ifs pl, (k, ifs, pl) ∈ ents ↔
+        ∃ q o, q ∈ below p (exportedPaths h) ∧ k = render q ∧ exportedAfter h k = some o ∧
+          ifs = dictKeys o.ifaces ∧ pl = o.payload := by
+  have hpath : o0.path = render p := (exportedAfter_some hexp).2
+  refine ⟨managed (render p) (run h), ?_, nodup_managed_keys _ _ (nodup_keys_run h), fun k ifs pl => ?_⟩
+  · rw [handle_managed, lookup_run, hexp]
+    simp only [hpath]
+  · rw [mem_managed]
+    constructor
+    · rintro ⟨⟨hsw, hne⟩, o, ho, rfl, rfl⟩
+      have hk : k ∈ keys (run h) := by rw [mem_keys_iff, ho]; rfl
+      obtain ⟨q, hq, rfl, hqE⟩ := key_valid h wf k hk
+      obtain ⟨e, rest, rfl⟩ := (startsWith_dirPrefix_ne p q hp hq).mp ⟨hsw, hne⟩
+      rw [lookup_run] at ho
+      exact ⟨_, o, (mem_below p _ _).mpr ⟨hqE, e, rest, rfl⟩, rfl, ho, rfl, rfl⟩
+    · rintro ⟨q, o, hq, rfl, ho, rfl, rfl⟩
+      obtain ⟨hqE, hbelow⟩ := (mem_below p q _).mp hq
+      have hqv := ((mem_exportedPaths h q).mp hqE).1
+      refine ⟨(startsWith_dirPrefix_ne p q hp hqv).mpr hbelow, o, ?_, rfl, rfl⟩
+      rw [lookup_run]; exact ho
+
+/-! ### 3. UnknownObject -/
+
+/-- A call that is not one of the built-ins (Ping, Introspect, GetManagedObjects), to any path
+text `s`: it is answered UnknownObject exactly when `s` is not currently exported, and otherwise
+reaches the object exported there most recently.  GetManagedObjects on a path that is not
+exported is answered UnknownObject as well. -/
+theorem unknown_object_iff_not_exported (h : List Op) (s : Str) :
+    (handle (run h) s .ordinary = .unknownObject s ↔ exportedAfter h s = none) ∧
+    (∀ o, exportedAfter h s = some o → handle (run h) s .ordinary = .dispatch o) ∧
+    (handle (run h) s .getManagedObjects = .unknownObject s ↔ exportedAfter h s = none) := by
+  rw [handle_ordinary, handle_managed, lookup_run]
+  cases exportedAfter h s with
+  | none => simp
+  | some o => simp
+
+/-! ### 4. signals -/
+
+/-- After any history: an export sends exactly one message, InterfacesAdded naming the object's
+path (header and first argument) and its interface names; an unexport of an exported path sends
+exactly one message, InterfacesRemoved naming that path and the interface names of the object
+that was visible there; an unexport of a path that is not exported raises KeyError, sends nothing
+and leaves the table unchanged. -/
+theorem export_signals (h : List Op) :
+    (∀ o : Obj, (step (run h) (.export o)).sent = [.interfacesAdded o.path o.path (dictKeys o.ifaces) o.payload] ∧
+        (step (run h) (.export o)).keyError = false) ∧
+    (∀ s o, exportedAfter h s = some o →
+        (step (run h) (.unexport s)).sent = [.interfacesRemoved s s o.ifaces] ∧
+        (step (run h) (.unexport s)).keyError = false) ∧
+    (∀ s, exportedAfter h s = none → step (run h) (.unexport s) = ⟨run h, [], true⟩) := by
+  refine ⟨fun o => ⟨rfl, rfl⟩, fun s o ho => ?_, fun s ho => ?_⟩
+  · have hp := (exportedAfter_some ho).2
+    rw [← lookup_run] at ho
+    simp [step, ho, hp]
+  · rw [← lookup_run] at ho
+    simp [step, ho]
+
+/-! ### text and elements -/
+
+/-- For valid object paths `s`, `t` (texts) with elements `p`, `q`: `t` is strictly below `s`
+(element-wise proper prefix) iff `t` starts with (`"/"` if `s = "/"`, else `s ++ "/"`) and `t ≠ s`. -/
+theorem strictlyBelow_iff_text (s t : Str) (p q : Path) (hs : parse s = some p) (ht : parse t = some q) :
+    properPrefix p q = true ↔
+      (startsWith t (if s = ['/'] then ['/'] else s ++ ['/']) = true ∧ t ≠ s) := by
+  obtain ⟨hp, rfl⟩ := render_parse s p hs
+  obtain ⟨hq, rfl⟩ := render_parse t q ht
+  exact strictlyBelow_text p q hp hq
+
+/-- Text and element list determine each other on valid paths. -/
+theorem parse_render_inverse :
+    (∀ p, ValidPath p → parse (render p) = some p) ∧ (∀ s p, parse s = some p → ValidPath p ∧ render p = s) :=
+  ⟨parse_render, render_parse⟩
+
+/-! ### witnesses: the code before the repairs violates the property -/
+
+private def oRoot : Obj := { path := ['/'], ifaces := [], payload := 1 }
+private def oAB : Obj := { path := ['/', 'a', '/', 'b'], ifaces := [], payload := 1 }
+private def oABC : Obj := { path := ['/', 'a', '/', 'b', 'c'], ifaces := [], payload := 2 }
+
+/-- F23: with `/` exported, the unrepaired loop lists a child named "" for `/`; the spec has none. -/
+theorem orig_introspect_root_lists_empty_child :
+    introspectChildrenOrig (render []) (run [.export oRoot]) = [[]] ∧
+    children [] (exportedPaths [.export oRoot]) = [] ∧
+    introspectChildren (render []) (run [.export oRoot]) = [] := by decide
+
+/-- F24: with `/a/b` and `/a/bc` exported, the unrepaired selection reports `/a/bc` beneath `/a/b`. -/
+theorem orig_managed_reports_prefix_sibling :
+    managedOrig oAB.path (run [.export oAB, .export oABC]) = [(oABC.path, [], 2)] ∧
+    below [['a'], ['b']] (exportedPaths [.export oAB, .export oABC]) = [] ∧
+    managed oAB.path (run [.export oAB, .export oABC]) = [] := by decide
+
+/-! ### the hypotheses are satisfiable by non-trivial instances -/
+
+private def hist : List Op :=
+  [.export oRoot, .export oAB, .export oABC, .unexport ['/', 'z'], .export { oAB with payload := 7 },
+   .unexport oABC.path]
+
+example : WfHistory hist := by
+  intro o ho
+  simp only [hist, List.mem_cons, Op.export.injEq, List.not_mem_nil, or_false, reduceCtorEq, false_or] at ho
+  rcases ho with rfl | rfl | rfl | rfl <;> decide
+
+example : ValidPath [['a'], ['b']] ∧ exportedAfter hist (render [['a'], ['b']]) = some { oAB with payload := 7 } := by
+  decide
+
+example : children [] (exportedPaths hist) = [['a']] ∧ below [] (exportedPaths hist) = [[['a'], ['b']]] := by
+  decide
+
+end Txdbus.C16
+
+#print axioms Txdbus.C16.exports_eq_spec
+#print axioms Txdbus.C16.children_eq_spec
+#print axioms Txdbus.C16.children_nil_iff
+#print axioms Txdbus.C16.introspect_fails_iff_nothing_there
+#print axioms Txdbus.C16.interface_names_complete
+#print axioms Txdbus.C16.managed_eq_spec
+#print axioms Txdbus.C16.unknown_object_iff_not_exported
+#print axioms Txdbus.C16.export_signals
+#print axioms Txdbus.C16.strictlyBelow_iff_text
+#print axioms Txdbus.C16.parse_render_inverse
+#print axioms Txdbus.C16.orig_introspect_root_lists_empty_child
+#print axioms Txdbus.C16.orig_managed_reports_prefix_sibling
